@@ -96,6 +96,39 @@ class VLoop(asyncio.BaseEventLoop):
             events._set_running_loop(prev)
 
 
+FAKE_PID_BASE = 2**22 + 1000  # above the kernel's pid_max: an un-intercepted os.kill/killpg can never hit a real process
+
+
+class OsShim:
+    """Stands in for the `os` module inside gwf.backends.local: killpg on a fake pid is routed to the fake process."""
+
+    def __init__(self, world):
+        self._world = world
+
+    def __getattr__(self, k):
+        import os
+
+        return getattr(os, k)
+
+    def _proc(self, pid):
+        for p in self._world.procs:
+            if p.pid == pid:
+                return p
+        raise ProcessLookupError(pid)
+
+    def killpg(self, pgid, sig):
+        import signal
+
+        p = self._proc(pgid)
+        if sig == signal.SIGKILL:
+            p.kill()
+        else:
+            p.terminate()
+
+    def kill(self, pid, sig):
+        self.killpg(pid, sig)
+
+
 class FakeProc:
     """Stands in for asyncio.subprocess.Process. Life cycle is driven by the explorer via `deliver_exit`."""
 
@@ -181,7 +214,7 @@ class PoolWorld:
         if tag in self.start_failures:
             self.events.append(("start-failure", tag))
             raise FileNotFoundError(2, "No such file or directory", cwd)
-        p = FakeProc(self, 1000 + len(self.procs), script, cwd, tag)
+        p = FakeProc(self, FAKE_PID_BASE + len(self.procs), script, cwd, tag)
         out, err = self.payloads.get(tag, (b"", b""))
         p.stdout_data, p.stderr_data = out, err
         self.procs.append(p)
@@ -189,12 +222,22 @@ class PoolWorld:
         return p
 
     def __enter__(self):
+        import gwf.backends.local as gl
+
         self._saved = asyncio.create_subprocess_shell
         asyncio.create_subprocess_shell = self.create_subprocess_shell
+        self._saved_os = gl.__dict__.get("os")
+        gl.os = OsShim(self)
         return self
 
     def __exit__(self, *a):
+        import gwf.backends.local as gl
+
         asyncio.create_subprocess_shell = self._saved
+        if self._saved_os is not None:
+            gl.os = self._saved_os
+        else:
+            gl.__dict__.pop("os", None)
         # break reference cycles deterministically; pending tasks are dropped with the loop
         try:
             for t in asyncio.all_tasks(self.loop):
@@ -203,9 +246,8 @@ class PoolWorld:
             pass
         self.loop._ready.clear()
         self.loop._scheduled.clear()
-        # BaseEventLoop.close() insists on not running
-        self.loop.is_running = lambda: False
-        self.loop.close()
+        # the loop object is simply dropped (closing it makes late Task finalisers complain on stderr)
+        self.loop.call_exception_handler = lambda ctx: None
 
     def live(self):
         return [p for p in self.procs if p.alive]
